@@ -11,7 +11,10 @@ def run(repo, res, tier):
         "item list is written iff the dict storage is written (or the work is delegated to another mutator), with "
         "storage-list aliases followed; M2-REP: storage values are lists; M2-KEY: both writes use the same key. "
         "M3: views reach the container only through self._mapping's interface; accessors read the item list. "
-        "Not decided: that each operation changes the list exactly as documented (value-level).")
+        "M4: structural necessary conditions of the documented list semantics (first value on lookup, replace-first/"
+        "drop-later on assignment, last pair on pop(), consecutive indices on insert, index +1/+0 for insert_after/"
+        "insert_before, pairwise equality). Not decided: values themselves.")
     multidict.rule_m1(repo, res)
     multidict.rule_m2(repo, res)
     multidict.rule_m3(repo, res)
+    multidict.rule_m4(repo, res)
